@@ -94,7 +94,7 @@ pub const KITS: &[Kit] = &[
           code: &["require github.com/some/dependency v1.2.3", "exclude github.com/bad/dependency v0.0.0"],
           decoys: &[], forms: &[line("//"), block("/*", "*/")], blank_between: false, indent_ok: false },
     Kit { grammar: "html", files: &["x.html", "x.htm"], prologue: "<!DOCTYPE html>\n", epilogue: "", code: &["<p>text</p>", "<div><span>a</span></div>"],
-          decoys: &["<block name=\"decoy\"> </block>", "<p title=\"<block name=decoy> </block>\">t</p>"], forms: &[block("<!--", "-->")], blank_between: false, indent_ok: true },
+          decoys: &["<block name=\"decoy\"> </block>", "<p title=\"<block name=decoy> </block>\">t</p>", "<p title=\"<!-- <block name=decoy> </block> -->\">t</p>"], forms: &[block("<!--", "-->")], blank_between: false, indent_ok: true },
     Kit { grammar: "java", files: &["x.java"], prologue: "", epilogue: "", code: &["class A { int x = 1; }", "interface I { }"],
           decoys: &["class D { String s = \"<block name=decoy> </block>\"; }", "class E { String t = \"// <block name=decoy> </block>\"; }"], forms: SLASH, blank_between: false, indent_ok: true },
     Kit { grammar: "javascript", files: &["x.js", "x.jsx"], prologue: "", epilogue: "", code: &["let x = 1;", "function f() { }"],
@@ -132,7 +132,7 @@ pub const KITS: &[Kit] = &[
           decoys: &["SELECT '<block name=decoy> </block>';", "SELECT '-- <block name=decoy> </block>';"],
           forms: &[line("--"), block("/*", "*/")], blank_between: false, indent_ok: true },
     Kit { grammar: "swift", files: &["x.swift"], prologue: "", epilogue: "", code: &["let x = 1", "func f() { }"],
-          decoys: &["let s = \"<block name=decoy> </block>\"", "let t = \"// <block name=decoy> </block>\""], forms: SLASH_NESTING, blank_between: false, indent_ok: true },
+          decoys: &["let s = \"<block name=decoy> </block>\"", "let t = \"// <block name=decoy> </block>\"", "let u = \"/* <block name=decoy> </block> */\""], forms: SLASH_NESTING, blank_between: false, indent_ok: true },
     Kit { grammar: "toml", files: &["x.toml"], prologue: "", epilogue: "", code: &["x = 1", "[owner]"],
           decoys: &["s = \"<block name=decoy> </block>\"", "t = '# <block name=decoy> </block>'"], forms: HASH, blank_between: false, indent_ok: true },
     Kit { grammar: "tsx", files: &["x.tsx"], prologue: "", epilogue: "", code: &["let x: number = 1;", "function f(): void { }"],
